@@ -45,7 +45,7 @@ def case_script(cid, lp, cfg):
     elif w == "arb" and cfg.get("basis") and not cfg["entry"].startswith("EXACT"):
         lines += ["LOADBASIS %s %s" % cfg["basis"]]
     lines += config_lines(cfg)
-    lines += [solve_line(cfg), "ACCESS", "GETBASIS", "DUMP"]
+    lines += [solve_line(cfg), "ACCESS", "INTSOL", "GETBASIS", "DUMP"]
     return "\n".join(lines) + "\n"
 
 
@@ -59,6 +59,7 @@ class CaseOut:
         self.ilp = []         # raw token lines of ILP block
         self.ulp = []
         self.basis = None
+        self.intsol = None
         self.ebasis = None
         self.lp_ok = None
         self.other = []
@@ -90,6 +91,8 @@ class CaseOut:
                 self.ilp.append(t)
             elif k in ("ULP", "UC", "UR"):
                 self.ulp.append(t)
+            elif k == "INTSOL":
+                self.intsol = t[1:]
             elif k == "BASIS":
                 self.basis = (t[1], t[2])
             elif k == "EBASIS":
